@@ -501,7 +501,7 @@ def _brief(case):
 # ---------------------------------------------------------------- generator (simulates the model to aim chunk ends)
 
 def budget(tier):
-    return dict(shards=16, examples=220 if tier == 'quick' else 4500)
+    return dict(shards=16, examples=220 if tier == 'quick' else 1800)
 
 
 _PCS = [0, 1, -1, 2, -2, 3, 255, 256, 65535, 65536, 2**31 - 1, 2**31, -2**31, -2**31 - 1, 2**32 - 1, 2**32, -2**32,
